@@ -110,6 +110,47 @@ package badgerstore
 //@   modifies ghost.tqn, ghost.tqdone, alloc
 //@   ensures queued: tqn == old(tqn) + 1
 //@   ensures not.inline: uixn == old(uixn)
+//@ # ---- updateIndex: one transaction; query-change callbacks only after it committed, only when an index entry changed ----
+//@ # chg: an index entry was (to be) deleted or set in this update; qcn: OnQueryChange invocations; qclast: the last argument
+//@ ghostvar chg bool
+//@ ghostvar qcn int
+//@ ghostvar qclast iface
+//@ func callback.queryChangeCB(self ref, qc store.QueryChange)
+//@   modifies ghost.qcn, ghost.qclast
+//@   ensures qcn == old(qcn) + 1 && same(qclast, qc)
+//@ func QueryStore.updateIndex$1(txn *badger.Txn) (err error)
+//@   requires qs != nil && txn != nil && forallint(k, imp(mapHasId(qs.idxs, k), mapValId(qs.idxs, k).Key != nil)) && !chg
+//@   modifies ghost.kvhas, ghost.chg, alloc, bytes
+//@   callback Key keyCB
+//@   ghost call Index.getKey#1 before :: set chg = true
+//@   ghost call Index.getKey#2 before :: set chg = true
+//@   # the entry deleted is the one built from the old key, the entry set the one built from the new key
+//@   ghost call Txn.Delete#1 before :: assert old.entry.len: ref(beforeKey) != 0 && len(arg_key) == len(idx.Name) + len(beforeKey) + len(id) + 2
+//@   ghost call Txn.Delete#1 before :: assert old.entry.key: bytes(arg_key)[len(idx.Name)+1:len(idx.Name)+1+len(beforeKey)] == bytes(beforeKey)
+//@   ghost call Txn.Delete#1 before :: assert old.entry.id: bytes(arg_key)[len(idx.Name)+2+len(beforeKey):] == id
+//@   ghost call Txn.Set#1 before :: assert new.entry.len: ref(afterKey) != 0 && len(arg_key) == len(idx.Name) + len(afterKey) + len(id) + 2
+//@   ghost call Txn.Set#1 before :: assert new.entry.key: bytes(arg_key)[len(idx.Name)+1:len(idx.Name)+1+len(afterKey)] == bytes(afterKey)
+//@   ghost call Txn.Set#1 before :: assert new.entry.id: bytes(arg_key)[len(idx.Name)+2+len(afterKey):] == id
+//@   ensures commit: isNil(err)
+//@   ensures flag: updated == (old(updated) || chg) && imp(!chg, kvhas == old(kvhas))
+//@   loop 1 invariant updated == (old(updated) || chg) && imp(!chg, kvhas == old(kvhas)) && bytes(rname) == id
+//@ func (qs *QueryStore) updateIndex(id string, before interface{}, after interface{}) (err error)
+//@   requires qs != nil && qs.st != nil && qs.st.DB != nil && forallint(k, imp(mapHasId(qs.idxs, k), mapValId(qs.idxs, k).Key != nil)) && forall(k, 0, len(qs.onQueryChange), qs.onQueryChange[k] != nil)
+//@   modifies all
+//@   callback cb queryChangeCB
+//@   ghost entry :: set chg = false
+//@   ghost entry :: set uixn = uixn + 1
+//@   ensures counted: uixn == old(uixn) + 1
+//@   ensures failed: imp(!isNil(err), qcn == old(qcn))
+//@   ensures notify: imp(isNil(err), qcn == old(qcn) + ite(chg, len(old(qs.onQueryChange)), 0))
+//@   ensures notify.arg: imp(isNil(err) && chg && len(old(qs.onQueryChange)) > 0, typeIs(qclast, "badgerstore.queryChange") && unbox(qclast, "badgerstore.queryChange").qs == qs
+//@       && same(unbox(qclast, "badgerstore.queryChange").id, id) && same(unbox(qclast, "badgerstore.queryChange").before, before) && same(unbox(qclast, "badgerstore.queryChange").after, after))
+//@   ensures quiet: imp(!chg, kvhas == old(kvhas))
+//@   loop 1 invariant -1 <= rangeindex && rangeindex < len(qs.onQueryChange) + 0 && qcn == old(qcn) + rangeindex + 1 && imp(rangeindex >= 0, same(qclast, qc))
+//@ func QueryStore.handleChange$1()
+//@   requires qs != nil && qs.st != nil && qs.st.DB != nil && forallint(k, imp(mapHasId(qs.idxs, k), mapValId(qs.idxs, k).Key != nil)) && forall(k, 0, len(qs.onQueryChange), qs.onQueryChange[k] != nil)
+//@   modifies all
+//@   ensures once: uixn == old(uixn) + 1
 //@
 //@ props C14
 //@ # the index-query callback, key functions and key filters are client code; they are assumed to be
